@@ -84,6 +84,7 @@ bool has_edge(const GraphBuilder &gb, int src, int dst) {
 extern "C" int harness_main() {
     choose_base(P);
     choose_extra(P, X_COUNT_ALL, false);
+    verif_assume(P.extra != X_TRYEXC);  // the try_except child is exercised at run time (C01_eval)
 
     bool threw = false;
     GraphBuilder gb;
